@@ -204,12 +204,12 @@ PROPS = {
     'C05': {
         'oracles': ['C05'], 'bv_decide': True,
         'geoms': {'quick': ['default', 'th1'], 'thorough': ALLG},
-        'runs': {'quick': [conc(10, 40, 20, 0, crash_every=3), seq('mixed', 15, 150), unit('nvm', 40)],
-                 'thorough': [conc(120, 300, 150, 0, crash_every=1, bound=3), seq('mixed', 300, 300), unit('nvm', 500)]},
+        'runs': {'quick': [conc(10, 40, 20, 0, crash_every=3), seq('mixed', 15, 150), seq('recov', 30, 200), unit('nvm', 40)],
+                 'thorough': [conc(120, 300, 150, 0, crash_every=1, bound=3), seq('mixed', 300, 300), seq('recov', 600, 300), unit('nvm', 500)]},
         'rule': T_RULE + ('Crash oracle: before every crash_every-th atomic write to the lower (persistent) buffer of every explored schedule the '
                           'buffer is copied; the copy is recovered by the real LLFree::new(Init::Recover) with zeroed volatile buffers; every block '
                           'held by a completed call must be allocated and freeable at its order, stats/tree_stats must agree (validate), and at most '
-                          'the frames of the calls in flight may be missing. Sequential: recover at quiescent points compared with the model.'),
+                          'the frames of the calls in flight may be missing. Sequential: recover at quiescent points compared with the model and with the allocation status the callers held before (flavor recov: frequent recoveries, targeted multi-row allocations); whenever ownership model and lower metadata disagree, a copy of the metadata is recovered by the real code and compared frame by frame.'),
         'partial': ('recovery proved from every state satisfying the weak invariant (re-establishes both invariants, keeps the allocation status of every '
                     'frame); every state of every interleaving of public-interface calls (frees at allocation order) proved to be such a state with all holdings recorded; '
                     'crash states of sequences with partial frees of huge allocations explored, not proved'),
